@@ -44,4 +44,34 @@ func (s *syncer) run(key string, prefix bool, send func(data map[string]*mvccpb.
     ghost at call[1] pull: gPulled := ref(result)
     ghost at call[1] pull: gPullFailed := err != nil
   end
+
+// ---- C18: the cluster mutex = goroutine-level sync.Mutex + session-level etcd mutex ----
+// localHeld: this process's sync.Mutex half is held; remoteHeld[m]: the etcd mutex object is held by this session
+ghost field mutex.localHeld bool
+ghost var remoteHeld mmap[int]bool
+
+func (m *mutex) Lock() (err error)
+  requires m != nil && m.m != nil
+  requires not-reentrant: !m.localHeld
+  modifies m.localHeld, remoteHeld
+  ensures acquired-both-halves: err == nil ==> m.localHeld && remoteHeld[ref(m.m)]
+  ensures failed-acquisition-leaves-it-free: err != nil ==> !m.localHeld && remoteHeld == old(remoteHeld)
+  ghost at lock lock: m.localHeld := true
+  ghost at unlock lock: m.localHeld := false
+  closure[1] ()
+    ghost at unlock lock: m.localHeld := false
+  end
+
+func (m *mutex) Unlock() (err error)
+  requires m != nil && m.m != nil
+  requires held: m.localHeld
+  modifies m.localHeld, remoteHeld
+  ensures local-half-always-released: !m.localHeld
+  ensures remote-released-on-success: err == nil ==> !remoteHeld[ref(m.m)]
+  ghost at unlock lock: m.localHeld := false
+
+func (m *mutex) Lock#cancel()
+  trusted
+func (m *mutex) Unlock#cancel()
+  trusted
 @*/
